@@ -610,6 +610,11 @@ func runC14(r *report.Run) {
 	r.Set("traces_validated_against_impl", 3*total+executed)
 	r.Set("evaluations", 3*total+executed)
 	r.Set("distinct_nontrivial", total)
+	for i, cs := range cpuSampled {
+		if i%8 == 0 {
+			r.Sample(cs)
+		}
+	}
 	r.Set("rule", "truthfulness: for every case of the fetch/operation/flag/frame sweeps (all opcodes, all m/x, E, operand alphabets, bank-end locations), all 256 displacements of every rel8 opcode and a rel16 boundary set at 6 locations, each of the three trace renderers is called on the real CPU and its line parsed: bank:address, byte column, mnemonic, operand digits, addressing-mode features (brackets, index letters inside/outside, '#', digit counts), branch destination, register and flag columns; the call must leave all registers, flags, cycle totals and memory untouched. non-perturbation along programs: every RunUntil scenario (programs to depth 2 (3), all targets, budgets) with a plain and a Reserve/Commit logger must end exactly like the unlogged hand-stepped twin and log exactly one truthful line per instruction about to execute")
 	r.Assume("cosmetic syntax (spacing, case, separators, 'Sn' for the stack register) is not pinned; the structural features of standard 65816 operand syntax are")
 	c := cpuDefaultCase(0xD0)
